@@ -446,6 +446,18 @@ func checkC09(c *runCtx) {
 	for _, s := range specs {
 		vtSearch(c, p, vtSpec{Name: "gathering: " + s.name, Model: "gather", Cfg: s.cfg, Deadline: dl})
 	}
+	// goroutine scheduling inside one event: gathering racing Restart, and the window between addCandidate's
+	// cancellation check and the hand-over to the loop, under the controlled scheduler; the resource census is the oracle
+	if os.Getenv("VERIF_VARIANT") == "instr" && os.Getenv("VERIF_ONLY") == "" {
+		b := 2
+		if !c.quick() {
+			b = 3
+		}
+		csExplore(c, "gather-vs-restart", b+1, dl, nil)
+		csExplore(c, "gather-srflx-vs-restart", b, dl, nil)
+		csExplore(c, "gather-vs-gather-vs-restart", b, dl, nil)
+		csExplore(c, "addcandidate-after-cancel", 3, dl, func(zzmc.Failure) string { return "S6" })
+	}
 }
 
 // ---------------------------------------------------------------- CS coarse scenario: gathering vs Restart
